@@ -770,6 +770,25 @@ impl HnswIndex {
     }
 }
 
+/// Verification hook (compiled only with `--cfg grafeo_verif`): exposes the proximity graph so that
+/// a conformance harness can compare searches with a model of the layered structure.
+#[cfg(grafeo_verif)]
+impl HnswIndex {
+    /// Returns (entry point, max level, per node: id and neighbour ids per layer, in stored order).
+    #[must_use]
+    pub fn verif_dump(&self) -> (Option<NodeId>, usize, Vec<(NodeId, Vec<Vec<NodeId>>)>) {
+        let nodes = self.nodes.read();
+        let entry_point = *self.entry_point.read();
+        let max_level = *self.max_level.read();
+        let mut out: Vec<(NodeId, Vec<Vec<NodeId>>)> = nodes
+            .iter()
+            .map(|(&id, n)| (id, n.neighbors.clone()))
+            .collect();
+        out.sort_by_key(|(id, _)| *id);
+        (entry_point, max_level, out)
+    }
+}
+
 impl std::fmt::Debug for HnswIndex {
     fn fmt(&self, f: &mut std::fmt::Formatter<'_>) -> std::fmt::Result {
         f.debug_struct("HnswIndex")
